@@ -97,7 +97,7 @@ def map_items(which, n: int, mc: int, failing: int, c0: int, c1: int, c2: int, c
         expect = ("FAILED", "Boom")
     else:
         expect = ("SUCCEEDED", [{"done": k} for k in range(n)])
-    return _run(asl, {"items": items}, [c0, c1, c2, c3, c4, c5, c6, c7], {"fi": w}, which, "STANDARD", expect)
+    return _run(asl, {"items": items}, [c0, c1, c2, c3, c4, c5, c6, c7] + [0] * 24, {"fi": w}, which, "STANDARD", expect)
 
 
 def two_execs(which, f1: bool, typ: int, c0: int, c1: int, c2: int, c3: int, c4: int, c5: int, c6: int, c7: int):
